@@ -82,8 +82,8 @@ def run(chk):
         # (below ~4e-9 the vendored sweep line of Polygon.__init__ starts rejecting valid many-vertex polygons: recorded finding
         # sweepline-large-coordinates, second witness - a constructor matter, not one of containment)
         u = 1.0
-        if rng.random() < 0.34:
-            u = 2.0 ** int(rng.integers(-25, 9))
+        if rng.random() < 0.34 or len(cases) % 8 == 5:
+            u = 2.0 ** int(rng.integers(-25, 9) if len(cases) % 8 != 5 else rng.integers(-25, -20))      # (the small end does not depend on the draw)
             P, pts = P * u, pts * u
             kind += "*2^k"
         mode = "placed" if force_far else rng.choice(["xy3", "xy2", "placed"])
